@@ -9,6 +9,8 @@ import SecsModel.Model.WF
 import SecsModel.Model.Msg
 import SecsModel.Model.Decode
 import SecsModel.Model.Fill
+import SecsModel.Model.Lexer
+import SecsModel.Model.Parser
 import SecsModel.Model.FloatLib
 import SecsModel.Model.Strconv
 import SecsModel.Model.Utf8
@@ -176,6 +178,23 @@ def runCtrl (p : P) : Option String := do
   | ["linktestrsp", h] => pure (showCtrl ((mkCtrl (← unhex h)).bind mkLinktestRsp))
   | _ => none
 
+def showDiag (tag : String) (d : Sml.Diag) : String :=
+  s!"{tag}={d.line}:{d.col}:{d.kind.replace " " "_"}"
+
+def showOutcome (o : Sml.Outcome) : String :=
+  match o with
+  | .panic => "PANIC"
+  | .done msgs errs warns =>
+    s!"n={msgs.length}" ++ String.join (msgs.map (fun m => " M " ++ showMsg m))
+      ++ String.join (errs.map (fun d => " " ++ showDiag "err" d))
+      ++ String.join (warns.map (fun d => " " ++ showDiag "warn" d))
+
+def showTok (t : Lex.Tok) : String :=
+  s!"{repr t.kind}:{hex t.val}@{t.line}:{t.col}"
+
+def pNatList (s : String) : Option (List Nat) :=
+  if s == "-" then some [] else (s.splitOn ",").mapM (·.toNat?)
+
 def showPI (r : Strconv.PI) : String :=
   s!"{r.val} " ++ (match r.err with | none => "ok" | some .syntax => "syntax" | some .range => "range")
 def showPU (r : Strconv.PU) : String :=
@@ -202,6 +221,8 @@ def runLine (line : String) : String :=
     | ["ofint", v] => do pure (toString (FloatLib.ofInt 8 (← v.toInt?)))
     | ["parseint", h, base, bits] => do pure (showPI (Strconv.parseInt (← unhex h) (← base.toNat?) (← bits.toNat?)))
     | ["parseuint", h, base, bits] => do pure (showPU (Strconv.parseUint (← unhex h) (← base.toNat?) (← bits.toNat?)))
+    | ["sml", h, u] => do pure (showOutcome (Sml.parse (← pNatList u) (← unhex h)))
+    | ["lex", h, u] => do pure (" ".intercalate ((Lex.lexAll (← pNatList u) (← unhex h)).map showTok))
     | ["isname", h] => do let s ← unhex h; pure s!"{isValidVarName s} {isEllipsis s}"
     | ["runes", h] => do
       let s ← unhex h
